@@ -7308,6 +7308,12 @@ fn eval_break(env: &mut Env, expr_value_is_used: bool) {
     // longer inside the innermost loop.
     while let Some((expr_state, expr)) = env.current_frame_mut().exprs_to_eval.pop() {
         match &expr.expr_ {
+            Expression_::While(_, _) | Expression_::ForIn(_, _, _)
+                if matches!(expr_state, ExpressionState::NotEvaluated) =>
+            {
+                // A later loop in the same block that hasn't
+                // started, not the loop we're inside.
+            }
             Expression_::While(_, _) => {
                 // If we were inside the loop body, pop its bindings
                 // block.
@@ -7366,7 +7372,8 @@ fn eval_continue(env: &mut Env) {
         if matches!(
             expr.expr_,
             Expression_::While(_, _) | Expression_::ForIn(_, _, _)
-        ) {
+        ) && !matches!(expr_state, ExpressionState::NotEvaluated)
+        {
             // TODO: this needs to clean up any items pushed to the value stack.
             // E.g. in `1 + continue`.
 
